@@ -26,7 +26,7 @@ def main():
         src_cache = {}
         for r in rs:
             t = tri.get(key(r))
-            if not t or t["verdict"] not in ("control", "equivalent"):
+            if not t or t["verdict"] not in ("control", "equivalent") or r.get("outcome") != "survived":
                 continue
             if t["verdict"] == "equivalent" and not t.get("keep_as_neutral"):
                 continue
@@ -43,12 +43,13 @@ def main():
                     break
                 k += 1
             new = "\n".join(lines[i - k:i] + [newline])
-            m = dict(id="sweep-%s-%d-%s" % (os.path.basename(r["file"]).replace(".rs", ""), r["line"], r["op"].lower() + str(int(__import__("hashlib").sha1(key(r).encode()).hexdigest()[:6], 16) % 1000)), props=t.get("props", []), edits=[dict(file=r["file"], old=old, new=new)], note=t.get("why", ""))
+            m = dict(id=(sys.argv[sys.argv.index("--name") + 1] if "--name" in sys.argv else "sweep") + "-%s-%d-%s" % (os.path.basename(r["file"]).replace(".rs", ""), r["line"], r["op"].lower() + str(int(__import__("hashlib").sha1(key(r).encode()).hexdigest()[:6], 16) % 1000)), props=t.get("props", []), edits=[dict(file=r["file"], old=old, new=new)], note=t.get("why", ""))
             if t["verdict"] == "equivalent":
                 m["neutral"] = True
             out.append(m)
-        json.dump(out, open(os.path.join(HERE, "mutants", "sweep.json"), "w"), indent=1)
-        print("wrote mutants/sweep.json with %d entries" % len(out))
+        name = sys.argv[sys.argv.index("--name") + 1] if "--name" in sys.argv else "sweep"
+        json.dump(out, open(os.path.join(HERE, "mutants", name + ".json"), "w"), indent=1)
+        print("wrote mutants/%s.json with %d entries" % (name, len(out)))
         return
     for r in und:
         if key(r) in tri:
